@@ -16,6 +16,9 @@ pub mod layers;
 pub mod rast;
 pub mod c11_buf;
 pub mod c12_tex;
+pub mod c13_pnm;
+pub mod c14_obj;
+pub mod mutate;
 
 pub type MonFn = fn(&Cfg, &mut Report);
 
@@ -30,6 +33,8 @@ pub fn lookup(prop: &str) -> Option<MonFn> {
         "C07" => c07_flags::run,
         "C11" => c11_buf::run,
         "C12" => c12_tex::run,
+        "C13" => c13_pnm::run,
+        "C14" => c14_obj::run,
         _ => return None,
     })
 }
